@@ -257,7 +257,8 @@ static rc::Gen<Case> gen_block(int) {
     }
     int64_t bkind = *rc::gen::weightedElement<int64_t>({{8, 0}, {1, 1}, {1, 2}, {2, 3}});
     Case c;
-    c.push_back(Op("blk", {ks[0], ks[1], ks[2], *range<int>(0, 1), *range<int>(1, 4), bkind, *range<int64_t>(0, 100000000)}, b));
+    // fourth field: bit 0 in == out; otherwise (field >> 1) - 16 in -15..15 is the distance out - in of PARTIALLY overlapping blocks (0: separate)
+    c.push_back(Op("blk", {ks[0], ks[1], ks[2], *rc::gen::weightedOneOf<int>({{2, rc::gen::just(0)}, {2, rc::gen::just(1)}, {1, rc::gen::map(range<int>(1, 31), [](int v) { return v << 1; })}}), *range<int>(1, 4), bkind, *range<int64_t>(0, 100000000)}, b));
     return c;
   });
 }
@@ -296,17 +297,33 @@ static Outcome run_block(const Case &c) {
       pt = prbytes((uint64_t)a[6] + i, 16);
     uint8_t want[16];
     ref_encrypt(rk, (const uint8_t *)pt.data(), want);
-    uint8_t *in = exact(pt.data(), 16);
-    uint8_t *out = inplace ? in : (uint8_t *)malloc(16);
+    int dist = inplace ? 0 : (int)((a[3] >> 1) & 31) - 16;  // "${in} and ${out} can overlap" (crypto_aes.h)
+    if (dist == -16) dist = 0;
+    uint8_t *span = nullptr, *in, *out;
+    if (dist != 0) {
+      size_t ad = (size_t)(dist < 0 ? -dist : dist);
+      span = (uint8_t *)malloc(16 + ad);
+      in = dist > 0 ? span : span + ad;
+      out = dist > 0 ? span + ad : span;
+      memcpy(in, pt.data(), 16);
+      o.cls("in and out overlap partially");
+    } else {
+      in = exact(pt.data(), 16);
+      out = inplace ? in : (uint8_t *)malloc(16);
+    }
     c02_encrypt_block(in, out, lk);
     if (memcmp(out, want, 16) != 0)
       o.fail(key.size() == 16 ? "block-aes128" : "block-aes256",
              "crypto_aes_encrypt_block(key " + hex(key) + ", block " + hex(pt) + ") = " + hex(std::string((char *)out, 16)) + ", FIPS-197 gives " +
                  hex(std::string((char *)want, 16)));
-    else if (!inplace && memcmp(in, pt.data(), 16) != 0)
+    else if (!inplace && dist == 0 && memcmp(in, pt.data(), 16) != 0)
       o.fail("block-input-modified", "crypto_aes_encrypt_block modified its input buffer");
-    if (!inplace) free(out);
-    free(in);
+    if (span)
+      free(span);
+    else {
+      if (!inplace) free(out);
+      free(in);
+    }
   }
   c02_key_free(lk);
   return o;
@@ -419,7 +436,8 @@ static rc::Gen<Case> gen_ctr(int tier) {
       Plan p = gen_segment(gen_focus(tier, s == 0));
       int ip = *rc::gen::weightedElement<int>({{1, 0}, {1, 1}, {2, 2}});  // never / always / per call
       for (int64_t n : p.calls)
-        c.push_back(Op("s", {n, ip == 2 ? *range<int>(0, 1) : ip, data_seed(), misalign ? *rc::gen::weightedElement<int>({{4, 0}, {1, 1}, {1, 8}, {1, 15}, {1, 5}}) : 0,
+        // bits 1-2 of the second field: separate buffers that TOUCH (one allocation: out == in + len, or in == out + len) -- not an overlap
+        c.push_back(Op("s", {n, (ip == 2 ? *range<int>(0, 1) : ip) | (*rc::gen::weightedElement<int>({{5, 0}, {1, 1}, {1, 2}}) << 1), data_seed(), misalign ? *rc::gen::weightedElement<int>({{4, 0}, {1, 1}, {1, 8}, {1, 15}, {1, 5}}) : 0,
                              misalign ? *rc::gen::weightedElement<int>({{4, 0}, {1, 1}, {1, 8}, {1, 15}, {1, 11}}) : 0}));
     }
     if (*range<int>(0, 4) == 0) add_buf();
@@ -546,13 +564,15 @@ static Outcome run_ctr(const Case &c) {
       for (size_t i = 0; i < (size_t)len; i++) want[i] = (char)(data[i] ^ rs.ks[m.pos + i]);
       // buffers at generated offsets 0..15 from an allocation (so in and out may be aligned differently); each ends where its block ends
       size_t ioff = op.a.size() > 3 ? (size_t)(op.a[3] & 15) : 0, ooff = op.a.size() > 4 ? (size_t)(op.a[4] & 15) : 0;
-      uint8_t *in_blk = (uint8_t *)malloc(ioff + (size_t)len);
+      int touch = inplace ? 0 : (int)((op.a[1] >> 1) & 3) % 3;
+      uint8_t *in_blk = (uint8_t *)malloc(ioff + (size_t)len * (touch ? 2 : 1));
       if (!in_blk) harness_error("malloc");
-      uint8_t *in = in_blk + ioff;
+      uint8_t *in = in_blk + ioff + (touch == 2 ? (size_t)len : 0);
       if (len) memcpy(in, data.data(), (size_t)len);
-      uint8_t *out_blk = inplace ? in_blk : (uint8_t *)malloc(ooff + (size_t)len);
+      uint8_t *out_blk = inplace || touch ? in_blk : (uint8_t *)malloc(ooff + (size_t)len);
       if (!out_blk) harness_error("malloc");
-      uint8_t *out = inplace ? in : out_blk + ooff;
+      uint8_t *out = inplace ? in : touch == 1 ? in + len : touch == 2 ? in_blk + ioff : out_blk + ooff;
+      if (touch && len) o.cls(touch == 1 ? "buffers touch: out == in + len" : "buffers touch: in == out + len");
       if (!inplace && len) memset(out, 0xCC, (size_t)len);
       if (len >= 16 && !inplace && ((uintptr_t)in & 15) != ((uintptr_t)out & 15)) o.cls(((uintptr_t)out & 15) == 0 ? "buffers:out-aligned-in-not" : ((uintptr_t)in & 15) == 0 ? "buffers:in-aligned-out-not" : "buffers:differently-misaligned");
       c02_ctr_stream(stream, in, out, (size_t)len);
@@ -577,7 +597,7 @@ static Outcome run_ctr(const Case &c) {
       m.in += data;
       m.out.append((const char *)out, (size_t)len);
       m.pos = b;
-      if (!inplace) free(out_blk);
+      if (!inplace && !touch) free(out_blk);
       free(in_blk);
     } else if (op.k == "buf" && op.a.size() >= 5) {
       int ki = (int)(((op.a[0] % (int64_t)keys.size()) + keys.size()) % keys.size());
@@ -859,6 +879,16 @@ static rc::Gen<Case> gen_far(int tier) {
     return c;
   }));
 }
+// 64 GiB (block index 2^32), always: the stream stops 1..40 bytes short of it and a call of 64..96 bytes crosses it; in half of the cases
+// the first call of the walk is shortened so that the big calls do not end on multiples of their size and one of them straddles 2^36 - 2^k
+static rc::Gen<Case> gen_far64(int) {
+  return rc::gen::noShrink(rc::gen::exec([]() {
+    Case c;
+    c.push_back(Op("far", {16, *range<int>(-40, -1), *range<int>(64, 96), *range<int>(0, 96), *range<int>(0, 3), *range<int64_t>(0, 1000000), *range<int>(24, 27), 0,
+                           *range<int>(0, 1) ? 16 * *range<int>(1, 60000) : 0}));
+    return c;
+  }));
+}
 static Outcome run_far1(const Case &c, int forced_mode);
 static Outcome run_far(const Case &c) {
   if (!c.empty() && c[0].a.size() > 7 && c[0].a[7] == 2) {  // both ways of getting there, one after the other
@@ -894,6 +924,8 @@ static Outcome run_far1(const Case &c, int forced_mode) {
     ref_encrypt(rk, ctr, out);
   };
   uint64_t target = (k << 32) + (uint64_t)delta, pos = 0, judged = 0;
+  bool displaced = a.size() > 8 && a[8] > 0;
+  if (displaced) target += chunk;  // the walk goes on past k * 2^32, so that one of the big calls straddles it
   bool giant = forced_mode >= 0 ? forced_mode == 1 : (a.size() > 7 && (a[7] & 1));
   if (giant) {
     // ONE call of `target` bytes: the input is an untouched anonymous mapping (zeros), the output is a 2 MiB memfd mapped over and over
@@ -936,6 +968,7 @@ static Outcome run_far1(const Case &c, int forced_mode) {
   if (!buf) harness_error("malloc of the chunk buffer failed");
   while (pos < target && o.ok) {
     size_t n = (size_t)std::min<uint64_t>(chunk, target - pos);
+    if (pos == 0 && displaced && (uint64_t)a[8] < n) n = (size_t)(a[8] / 16 * 16), o.cls("walk-displaced(big calls straddle powers of two)");
     memset(buf, 0, n);
     c02_ctr_stream(s, buf, buf, n);
     // judge the blocks at both ends of this call (positions are multiples of 16 except possibly at the very end)
@@ -949,6 +982,19 @@ static Outcome run_far1(const Case &c, int forced_mode) {
       judged++;
       if (memcmp(buf + off, w, 16) != 0)
         o.fail("ctr-far", "call of " + std::to_string(n) + " zero bytes at stream position " + std::to_string(pos) + ": " + first_diff(buf + off, w, 16, p0));
+    }
+    // a call that straddles k * 2^32: the blocks on both sides of it
+    uint64_t B = k << 32;
+    if (pos % 16 == 0 && pos + 32 <= B && B + 32 <= pos + n) {
+      o.cls("one big call straddles k*2^32");
+      for (int e = -2; e < 2 && o.ok; e++) {
+        uint64_t p0 = B + (uint64_t)(int64_t)(e * 16);
+        uint8_t w[16];
+        ref_block(p0 / 16, w);
+        judged++;
+        if (memcmp(buf + (p0 - pos), w, 16) != 0)
+          o.fail("ctr-far", "call of " + std::to_string(n) + " zero bytes at stream position " + std::to_string(pos) + ": " + first_diff(buf + (p0 - pos), w, 16, p0));
+      }
     }
     pos += n;
   }
@@ -1023,5 +1069,9 @@ int main(int argc, char **argv) {
                   "the stream is driven to byte position k*2^32 + delta (k = 1; thorough: 1, 2 or 16, i.e. block index 2^32; delta in -40..40) by in-place calls on 16..128 MiB of zeros, the blocks at both "
                   "ends of every call are judged by the FIPS-197 reference, then two calls of 0..96 bytes are judged byte by byte. Non-trivial: the calls continue past k*2^32",
                   gen_far, run_far});
+  subs.push_back({"far64",
+                  "thorough only: the stream is always driven to 64 GiB (block index 2^32): either to 1..40 bytes short of it, followed by a call of 64..96 bytes that crosses it, or with "
+                  "a shortened first call so that one 16..128 MiB call straddles 2^36 (blocks on both sides of the boundary judged by the reference). Always non-trivial",
+                  gen_far64, run_far});
   return pbt_main(argc, argv, subs);
 }
